@@ -7,6 +7,10 @@ CONSTANTS
   MaxRestarts = 1
   MaxFail = 1
   ChunkSizes = {1, 2, 10}
+  MaxWriteFail = 0
+  CatchUpWriteErrorFatal = TRUE
+  SwallowWriteError = FALSE
+  AnnounceBeforeWrite = FALSE
   FinalityAfterNotices = FALSE
 INIT Init
 NEXT Next
